@@ -150,3 +150,75 @@ silent("c16_rename_local_and_lambda_key", "C16", [(SER, '''            for k, v 
 ''', '''            for key, val in sorted(d.items(), key=lambda kv: kv[0]):
                 out[key] = val
 ''')])
+
+# ---------------------------------------------------------------- C10
+fire("c10_not_frozen", "C10", [(XPATH, "@dataclass(frozen=True)\nclass _DUMMY_XPATH_ROOT", "@dataclass\nclass _DUMMY_XPATH_ROOT")], "R-FROZEN")
+fire("c10_replace_mutates_self", "C10", [(NODE, '''        ori_n = self if _unregister(self) else None
+''', '''        ori_n = self if _unregister(self) else None
+        object.__setattr__(self, "id", self.id + "_old")
+''')], "R-BYPASS-WRITE")
+fire("c10_deser_forces_id_on_existing", "C10", [(NODE, '''        if existing_node is not None:
+            return existing_node
+''', '''        if existing_node is not None:
+            object.__setattr__(existing_node, "origin", existing_node.origin)
+            return existing_node
+''')], "R-BYPASS-WRITE")
+fire("c10_visitor_patches_child", "C10", [(VISITOR, '''                new_child = self.visit(child)
+
+                changes[fname] = new_child
+''', '''                new_child = self.visit(child)
+                if new_child is not None:
+                    object.__setattr__(new_child, "origin", child.origin)
+
+                changes[fname] = new_child
+''')], "R-BYPASS-WRITE")
+fire("c10_tree_marks_nodes", "C10", [(TREE, '''        for n in root.dfs():
+            self._node_to_parent_info[n.node] = ParentInfo(n.parent, n.field, n.findex)
+''', '''        for n in root.dfs():
+            n.node.__dict__["_tree"] = self
+            self._node_to_parent_info[n.node] = ParentInfo(n.parent, n.field, n.findex)
+''')], "R-BYPASS-WRITE")
+fire("c10_generated_store", "C10", [(CODEGEN, '''                body += f"{_IND}for o in self.{f.name}:\\n"
+                body += f"{_IND*2}yield o\\n"
+''', '''                body += f"{_IND}for o in self.{f.name}:\\n"
+                body += f"{_IND*2}object.__setattr__(o, '_seen', True)\\n"
+                body += f"{_IND*2}yield o\\n"
+''')], "R-GEN-PURE")
+silent("c10_new_non_node_attr", "C10", [(TREE, "        self._root = root\n", "        self._root = root\n        self._size = 0\n")])
+
+# ---------------------------------------------------------------- C12
+fire("c12_F03_truthiness", "C12", [(CODEGEN, '''                body += f"{_IND}if self.{f.name} is not None:\\n"
+                body += f"{_IND*2}yield self.{f.name}\\n"
+''', '''                body += f"{_IND}if self.{f.name}:\\n"
+                body += f"{_IND*2}yield self.{f.name}\\n"
+''')], "R-PRESENCE")
+fire("c12_F12_reverted", "C12", [(CODEGEN, '''        if not f.compare and not f.init:
+            body += f"{_IND}if not skip_non_compare and not skip_non_init:\\n"
+            body += f"{_IND*2}yield self.{f.name}, _fld_{f.name}\\n"
+            return
+
+''', "")], "R-FLAGS-TT")
+fire("c12_F13_reverted", "C12", [(NODE, '''            if f.name == "id":
+                if not skip_id:
+                    yield f
+                continue
+''', '''            if f.name == "id" and skip_id:
+                continue
+''')], "R-ACCESSOR-SIBLING")
+fire("c12_enumerate_from_1", "C12", [(CODEGEN, 'for i, o in enumerate(self.{f.name}):', 'for i, o in enumerate(self.{f.name}, 1):')], "R-ENUM-SHAPE")
+fire("c12_sorted_by_reverse", "C12", [(CODEGEN, '''    for f in sorted(props.keys(), key=lambda f: f.name):''', '''    for f in sorted(props.keys(), key=lambda f: f.name, reverse=True):''')], "R-ORDER-KEY")
+fire("c12_unsorted_branch_sorted", "C12", [(CODEGEN, '''        for f in child_fields.keys():
+            _build_body(f)''', '''        for f in reversed(child_fields.keys()):
+            _build_body(f)''')], "R-ORDER-KEY")
+fire("c12_wrong_field_var", "C12", [(CODEGEN, '''                body += f"{_IND*2}yield o, _fld_{f.name}, i\\n"''', '''                body += f"{_IND*2}yield o, _fld_{f.name}, None\\n"''')], "R-ENUM-SHAPE")
+fire("c12_install_on_base", "C12", [(CODEGEN, "    setattr(clz, new_f.__name__, new_f)", "    setattr(clz.__mro__[1], new_f.__name__, new_f)")], "R-REINSTALL")
+fire("c12_no_reinstall", "C12", [(NODE, "        cls.get_child_nodes = gen_and_yield_get_child_nodes  # type: ignore[method-assign]\n", "")], "R-REINSTALL")
+fire("c12_origin_follows_compare", "C12", [(CODEGEN, '''        if f.name == "origin":
+            body += f"{_IND}if not skip_origin:\\n"''', '''        if f.name == "origin":
+            body += f"{_IND}if not skip_origin and not skip_non_init:\\n"''')], "R-FLAGS-TT")
+silent("c12_guard_equivalent_form", "C12", [(CODEGEN, '''                body += f"{_IND}if self.{f.name} is not None:\\n"
+                body += f"{_IND*2}yield self.{f.name}\\n"
+''', '''                body += f"{_IND}if not (self.{f.name} is None):\\n"
+                body += f"{_IND*2}yield self.{f.name}\\n"
+''')])
+silent("c12_flags_demorgan", "C12", [(CODEGEN, 'body += f"{_IND}if not skip_non_compare and not skip_non_init:\\n"', 'body += f"{_IND}if not (skip_non_compare or skip_non_init):\\n"')])
